@@ -105,3 +105,10 @@ func (v *VerifPool) Snapshot() (pending, waiting map[common.Address][]VerifPoolT
 	}
 	return
 }
+
+// VerifSetValidateRoutines sets the number of signature-verifier goroutines and returns the old one.
+func VerifSetValidateRoutines(n int) int {
+	old := validateRoutineCount
+	validateRoutineCount = n
+	return old
+}
